@@ -11,7 +11,8 @@ PROP = "C03"
 MODEL_TARGETS = ["Corr/WriteShow.vo"]
 THEOREMS = ["C03_widths_cover", "C03_section_lines_unfold", "C03_format_is_layout", "C03_padding", "C03_line_roundtrip", "C03_stripped_line_roundtrip", "C03_curves_no_double_dot", "C03_order_tables_agree", "C03_item_roundtrip", "C03_expected_item_fields", "C03_unit_unbracketed", "C03_value_text", "C03_value_curves", "C03_value_number_string", "C03_value_roundtrip", "C03_value_int", "C03_expected_meta", "C03_section_roundtrip", "C03_blank_mnemonic_line", "C03_blank_name_parse", "C03_section_roundtrip_blanks", "C03_written_sections_read_back", "C03_section_ok_unfold", "C03_reads_back_unfold", "C03_other_text_unchanged", "C03_standardize_idem", "C03_standardize_cases", "C03_section_okb_ok", "C03_written_text_lines", "C03_written_blocks_unfold", "C03_written_blocks_wf", "C03_data_line_shape", "C03_written_sections_found", "C03_title_types", "C03_data_title_type", "C03_lines_from_items", "C03_find_read_back", "C03_reader_version", "C03_version_section_any_version", "C03_file_first_pass", "C03_file_roundtrip", "C03_file_hyps_unfold", "C03_in_class_unfold", "C03_text_hyps_unfold", "C03_header_read_back_unfold", "C03_null_read_unfold", "C03_wrap_ok_unfold", "C03_file_hypsb_ok", "C03_file_version_independent", "C03_written_state", "C03_set_wversion_unfold",
             "C03_strip_brackets_current", "C03_useful_current", "C03_compare_current",
-            "C03_order_current", "C03_format_current", "C03_widths_current", "C03_layout_composition_current"]
+            "C03_order_current", "C03_format_current", "C03_widths_current", "C03_layout_composition_current",
+            "C03_written_version_items", "C03_roundtrip_vs_original", "C03_stdf_unfold", "C03_is_sss_unfold", "C03_other_read_unfold"]
 ASSUMPTIONS = [
     "write(version=v) rewrites the VERS item (value v, description either the one read or the writer's standard text for v); every "
     "other ~Version item - WRAP, DLM and 0..4 further items from the conformant pools at any position - is compared in full; a DLM "
